@@ -184,11 +184,63 @@ class M:
         self.consts = consts or {}
         self.inline = inline
 
+    # -- tolerance for renamed locals ----------------------------------------------------------
+    # A name in a pattern that no longer denotes anything in the function (no local, parameter,
+    # global, function or enumerator of that spelling is mentioned anywhere in it) is treated as
+    # a metavariable for a local/parameter: it may bind to one variable, consistently for all
+    # patterns matched against this function.  A behaviour-preserving rename of a local therefore
+    # does not turn into an alarm, while a removed check still does (nothing matches it).
+    def _known_names(self):
+        fn = self.fn
+        kn = getattr(fn, "_known_names", None)
+        if kn is None:
+            kn = set()
+            fn.defs(0)
+            kn |= set(fn._names.values())
+            for pt, e in fn.points():
+                for n in walk(e):
+                    if n.get("k") == "ref":
+                        kn.add(n["name"])
+                    elif n.get("k") == "int" and n.get("name"):
+                        kn.add(n["name"])
+            fn._known_names = kn
+        return kn
+
+    def _renamed(self, nm, e, env):
+        if self.fn is None or e.get("dk") not in ("local", "param") or nm in self.consts:
+            return False
+        if nm in self._known_names():
+            return False
+        committed = getattr(self.fn, "_renames", {})
+        if nm in committed:
+            return committed[nm] == e["name"]
+        if e["name"] in committed.values():
+            return False
+        key = "~" + nm
+        if key in env:
+            return env[key] == e["name"]
+        if any(k.startswith("~") and v == e["name"] for k, v in env.items()):
+            return False
+        env[key] = e["name"]
+        return True
+
+    def _commit(self, env):
+        if self.fn is None:
+            return
+        for k, v in env.items():
+            if k.startswith("~"):
+                if not hasattr(self.fn, "_renames"):
+                    self.fn._renames = {}
+                self.fn._renames.setdefault(k[1:], v)
+
     def match(self, pat, e, env=None, depth=0):
         pat = parse(pat)
         if env is None:
             env = {}
-        return self._m(pat, e, env, depth)
+        ok = self._m(pat, e, env, depth)
+        if ok:
+            self._commit(env)
+        return ok
 
     def _deref(self, e):
         if self.fn is not None and self.inline and e.get("k") == "ref" and e.get("dk") == "local":
@@ -256,7 +308,7 @@ class M:
         if kind == "name":
             nm = p[1]
             if k == "ref":
-                return e["name"] == nm
+                return e["name"] == nm or self._renamed(nm, e, env)
             if k == "int":
                 if e.get("name") == nm:
                     return True
@@ -339,6 +391,13 @@ class M:
             return k == "assign" and e["op"] == p[1] and self._m(p[2], e["l"], env, d) and self._m(p[3], e["r"], env, d)
         return False
 
+    def _mc(self, pat, e):
+        env = {}
+        ok = self._m(pat, e, env, 0)
+        if ok:
+            self._commit(env)
+        return ok
+
     # ---- branch conditions ------------------------------------------------------------------
     def atom(self, cond, truth):
         """Normalise (condition, edge truth) to (atom, truth): strips !, ==0, !=0."""
@@ -371,14 +430,14 @@ class M:
             # comparison pattern: (op,l,r) wanted `want`
             forms = [(pat, want), (("bin", NEG[pat[1]], pat[2], pat[3]), not want)]
             for fp, fw in forms:
-                if fw == t and self._m(fp, e, {}, 0):
+                if fw == t and self._mc(fp, e):
                     return True
             # `x` tested for truth where the pattern is `x != 0` / `x == 0` (or NULL)
             zero = lambda q: q[0] == "null" or (q[0] == "int" and q[1] == 0)
             if pat[1] in ("==", "!=") and (zero(pat[3]) or zero(pat[2])):
                 other = pat[2] if zero(pat[3]) else pat[3]
                 w = want if pat[1] == "!=" else not want
-                if w == t and self._m(other, e, {}, 0):
+                if w == t and self._mc(other, e):
                     return True
             return False
         if want != t:
@@ -388,17 +447,17 @@ class M:
                 for a, b in ((l, r), (r, l)):
                     if (b.get("k") == "int" and b.get("v") == 0 and not b.get("name")) or b.get("k") == "null":
                         tt = t if e["op"] == "!=" else not t
-                        if tt == want and self._m(pat, a, {}, 0):
+                        if tt == want and self._mc(pat, a):
                             return True
             return False
-        if self._m(pat, e, {}, 0):
+        if self._mc(pat, e):
             return True
         if e.get("k") == "bin" and e["op"] in ("==", "!="):
             l, r = strip(e["l"]), strip(e["r"])
             for a, b in ((l, r), (r, l)):
                 if (b.get("k") == "int" and b.get("v") == 0 and not b.get("name")) or b.get("k") == "null":
                     tt = t if e["op"] == "!=" else not t
-                    if tt == want and self._m(pat, a, {}, 0):
+                    if tt == want and self._mc(pat, a):
                         return True
         return False
 
